@@ -42,7 +42,8 @@ CLAIMED = {
             'a real SSH server that never sends / drips its hello checks that connect fails within the timeout.',
             NOTE + 'lxml serialisation is modelled (compared every run), HelloHandler.parse enters as environment; the hello on the wire is parsed with xml.etree in the oracle.', 'DESIGN.md 5/C05'),
     'C06': (T + ': decision logic stated outright',
-            'Proof that ok iff no rpc-error, the error list mirrors the rpc-errors, an RPCError is raised iff (ALL and some non-exempt error) or '
+            'Proof (for replies without an <ok/> child; with one the statement is false of the code: known finding C06:ok-element-hides-rpc-errors, '
+            'witness in Props/C06.lean, replayed each run) that ok iff no rpc-error, the error list mirrors the rpc-errors, an RPCError is raised iff (ALL and some non-exempt error) or '
             '(ERRORS and some non-exempt error of severity error), never under NONE, that the exemption test is exactly the documented '
             'exact / prefix* / *suffix / *infix* match (case-insensitive), and that an aggregate carries all errors with severity error iff a '
             'constituent has it. The real RPC._request / RPCReply.parse / is_rpc_error_exempt run on generated replies x modes x pattern sets.',
@@ -93,8 +94,9 @@ CLAIMED = {
             'PARTIAL. Proved: replace_namespace renames exactly the elements and attributes of the old namespace and nothing else (all trees), '
             'root validation accepts exactly the allowed tag / required attribute combinations, one XML declaration, character-data round '
             'trip for all strings, and the tree-level round trip parse(serialise t) = t for every well-formed namespace-free tree over a MODEL of '
-            'the serialiser and reader (compared with to_xml byte for byte and with expat each run). Environment: prefixes, comments, PIs, CDATA, '
-            'DTDs, parse_root vs full parse - established by the correspondence on generated documents, a raw-document corpus and constructor programs '
+            'the serialiser and reader (compared with to_xml byte for byte and with expat each run); the root-only parse (model of parse_root: the start tag alone) '
+            'agrees with the full parse on EVERY text the full parse accepts. Environment: prefixes, comments, PIs, CDATA, '
+            'DTDs, parse_root on namespaced / declared-encoding documents - established by the correspondence on generated documents, a raw-document corpus and constructor programs '
             '(round trip, in-scope namespace bindings, tree left untouched, independent parser).',
             NOTE + 'lxml and expat are modelled for namespace-free trees and environment otherwise.', 'DESIGN.md 5/C17'),
     'C18': (T + ': event induction over reply trees for the SAX handler',
